@@ -4,6 +4,7 @@
    suite passes as the baseline, the demonstration fails with the change and passes without it;
 2. apply MUTANT/patch.diff to /repo, run the quick checks of the given properties, undo it."""
 import json, os, subprocess, sys, shutil
+os.environ.setdefault("VERIF_EVIDENCE_DIR", "/tmp/verif-evidence-seeded")   # not the committed evidence
 env = dict(os.environ, GOFLAGS="-mod=mod", GOPROXY="off", GOSUMDB="off", GOTOOLCHAIN="local")
 wt = sys.argv[1]
 props = sys.argv[2:]
